@@ -20,6 +20,7 @@ Arguments N.ltb : simpl never.
 Arguments N.eqb : simpl never.
 Arguments N.of_nat : simpl never.
 Arguments N.to_nat : simpl never.
+Arguments Nat.mul : simpl never.
 
 (* ---- 1. the classifier table ------------------------------------------------------------- *)
 Definition flags_of (c : N) : N :=
@@ -369,12 +370,12 @@ Proof.
   unfold leaves_wf, small, skel_ok.
   induction s as [raw|fs IH|xs IH] using skel_ind'; intros H1 H2.
   - exact H1.
-  - apply skel_all_map in H1 as [_ F1]. apply skel_all_map in H2 as [C2 F2]. apply skel_all_map. split; [exact C2|].
+  - apply skel_all_map in H1 as [_ F1]. apply skel_all_map in H2 as [C2 F2]. apply skel_all_map. split; [exact C2|]. clear C2.
     induction fs as [|kv t IHt]; [constructor|].
     inversion IH; subst. inversion F1; subst. inversion F2; subst.
     constructor; [|apply IHt; assumption].
     split; [tauto|]. apply H1; tauto.
-  - apply skel_all_arr in H1 as [_ F1]. apply skel_all_arr in H2 as [C2 F2]. apply skel_all_arr. split; [exact C2|].
+  - apply skel_all_arr in H1 as [_ F1]. apply skel_all_arr in H2 as [C2 F2]. apply skel_all_arr. split; [exact C2|]. clear C2.
     induction xs as [|v t IHt]; [constructor|].
     inversion IH; subst. inversion F1; subst. inversion F2; subst.
     constructor; [|apply IHt; assumption]. apply H1; assumption.
@@ -405,7 +406,7 @@ Proof.
         + constructor; [apply enc_str_WF; exact Hk|]. constructor; [apply Pv; exact Hv|exact Fi].
         + simpl. rewrite Li. lia. }
     destruct G as [items [Ei [Fi Li]]]. rewrite Ei. simpl.
-    eapply WF_map; [exact Sh|exact HO| |exact Fi]. rewrite Li. lia.
+    eapply WF_map; [exact Sh|exact HO| |exact Fi]. unfold bytes in *. rewrite Li. lia.
   - apply skel_all_arr in H as [Hn Hf].
     change (serialize (SArr xs)) with (arr_header (N.of_nat (length xs)) ++ ser_items xs).
     destruct (arr_header_ok _ Hn) as [c [w [hdr [E [Sh HO]]]]]. rewrite E.
@@ -419,7 +420,7 @@ Proof.
         + constructor; [apply Pv; exact Hv|exact Fi].
         + simpl. rewrite Li. reflexivity. }
     destruct G as [items [Ei [Fi Li]]]. rewrite Ei. simpl.
-    eapply WF_arr; [exact Sh| |exact Fi]. rewrite Li. exact HO.
+    eapply WF_arr; [exact Sh| |exact Fi]. unfold bytes in *. rewrite Li. exact HO.
 Qed.
 
 (* ---- 5. what the parser produces has well-formed leaves ------------------------------------- *)
